@@ -69,6 +69,9 @@ func namespaceConfig() *models.Namespace {
 		{DB: dbShard, Table: "t_child", Type: models.ShardLinked, Key: "pid", ParentTable: "t_hash"},
 		{DB: dbShard, Table: "t_glob", Type: models.ShardGlobal, Locations: []int{2, 2}, Slices: both},
 		{DB: dbMycat, Table: "t_mm", Type: models.ShardMycatMod, Key: "id", Locations: []int{2, 2}, Slices: both, Databases: []string{"db_m_[0-3]"}},
+		{DB: dbMycat, Table: "t_ml", Type: models.ShardMycatLong, Key: "id", Locations: []int{2, 2}, Slices: both, Databases: []string{"db_m_[0-3]"},
+			PartitionCount: "4", PartitionLength: "256"},
+		{DB: dbShard, Table: "t_month", Type: models.ShardMonth, Key: "d", Slices: both, DateRange: []string{"202001-202003", "202004-202006"}},
 	}
 	return ns
 }
@@ -132,11 +135,22 @@ func (r *recorder) HandleSet(*util.RequestContext, string, *ast.SetStmt) (*mysql
 	return &mysql.Result{}, nil
 }
 
-// getPlan mirrors SessionExecutor.getPlan / preBuildUnshardPlan
+const (
+	mycatHint       = "/* !mycat:" // proxy/server/executor.go
+	lastInsetIDMark = "SELECTLAST_INSERT_ID()"
+)
+
+// getPlan mirrors SessionExecutor.getPlan / preBuildUnshardPlan / checkMyCatHintPlan
 // (proxy/server/executor_handle.go) on the exported planner API.
-func getPlan(e *env, db, sql string) (plan.Plan, string, error) {
+func getPlan(e *env, db, sql string, checkHint bool) (plan.Plan, string, error) {
 	tokens := parser.Tokenize(sql)
-	if len(tokens) > 0 {
+	fast := len(tokens) > 0 && parser.Preview(sql) != parser.StmtComment
+	if fast && len(tokens) > 1 && len(tokens[1]) > 13 && len(tokens[1]) < 17 {
+		if util.HasUpperPrefix(strings.Join(tokens, ""), lastInsetIDMark) {
+			fast = false
+		}
+	}
+	if fast {
 		if tokenID, ok := mysql.ParseTokenMap[strings.ToLower(tokens[0])]; ok {
 			ruleDB, unshard, known := db, true, true
 			switch tokenID {
@@ -160,11 +174,28 @@ func getPlan(e *env, db, sql string) (plan.Plan, string, error) {
 	if err != nil {
 		return nil, "", fmt.Errorf("parse error: %v", err)
 	}
-	p, err := plan.BuildPlan(n, e.phyDBs, db, sql, e.router, e.seqs, nil)
+	var hintPlan plan.Plan
+	path := "full"
+	if checkHint {
+		_, comments := parser.SplitMarginComments(sql)
+		if strings.HasPrefix(strings.TrimSpace(comments.Trailing), mycatHint) {
+			if parts := strings.Split(comments.Trailing, mycatHint+"sql="); len(parts) >= 2 {
+				hintSQL := strings.TrimSpace(strings.TrimRight(parts[1], "*/"))
+				if hintSQL != "" {
+					// an error of the hint plan is only logged by the session
+					if hp, _, herr := getPlan(e, db, hintSQL, false); herr == nil {
+						hintPlan = hp
+						path = "full+hint"
+					}
+				}
+			}
+		}
+	}
+	p, err := plan.BuildPlan(n, e.phyDBs, db, sql, e.router, e.seqs, hintPlan)
 	if err != nil {
 		return nil, "", fmt.Errorf("build plan error: %v", err)
 	}
-	return p, "full", nil
+	return p, path, nil
 }
 
 // planOne returns the canonical description of what the session would do.
@@ -178,7 +209,7 @@ func planOne(e *env, o op) (res string) {
 		// SessionExecutor.handleFieldList
 		return "fieldlist slice=" + e.router.GetRule(o.DB, o.Table).GetSlice(0)
 	}
-	p, path, err := getPlan(e, o.DB, o.SQL)
+	p, path, err := getPlan(e, o.DB, o.SQL, true)
 	if err != nil {
 		return "error: " + err.Error()
 	}
@@ -201,6 +232,83 @@ func planOne(e *env, o op) (res string) {
 	return fmt.Sprintf("%s %T%s\n%s", path, p, status, strings.Join(st, "\n"))
 }
 
+// ---- the router's observable routing table ----
+
+// snapshot renders everything the exported Rule API shows about every rule of
+// the router, plus where a fixed set of keys is placed.
+func snapshot(rt *router.Router) string {
+	var lines []string
+	one := func(name string, r router.Rule) {
+		var sb strings.Builder
+		fl := Catch(func() string { return fmt.Sprintf("first=%d last=%d", r.GetFirstTableIndex(), r.GetLastTableIndex()) }) // a rule without sub-tables panics here
+		fmt.Fprintf(&sb, "%s type=%s db=%s table=%s col=%s linked=%v slices=%v %s idx=%v", name, r.GetType(), r.GetDB(), r.GetTable(),
+			r.GetShardingColumn(), r.IsLinkedRule(), r.GetSlices(), fl, r.GetSubTableIndexes())
+		for _, i := range r.GetSubTableIndexes() {
+			res := Catch(func() string {
+				d, err := r.GetDatabaseNameByTableIndex(i)
+				si := r.GetSliceIndexFromTableIndex(i)
+				return fmt.Sprintf("%s,%v,slice#%d=%s", d, err, si, r.GetSlice(si))
+			})
+			fmt.Fprintf(&sb, " [%d:%s]", i, res)
+		}
+		if mr, ok := r.(router.MycatRule); ok {
+			fmt.Fprintf(&sb, " dbs=%v", mr.GetDatabases())
+			for _, d := range mr.GetDatabases() {
+				i, ok := mr.GetTableIndexByDatabaseName(d)
+				fmt.Fprintf(&sb, " %s->%d,%v", d, i, ok)
+			}
+		}
+		if r.GetType() != router.DefaultRuleType && r.GetType() != router.GlobalTableRuleType {
+			for _, k := range []interface{}{0, 1, 5, 99, 100, 257, 1023, "20200215", "2020-05-31"} {
+				res := Catch(func() string {
+					i, err := r.FindTableIndex(k)
+					if err != nil {
+						return "err"
+					}
+					return fmt.Sprint(i)
+				})
+				fmt.Fprintf(&sb, " key(%v)=%s", k, res)
+			}
+		}
+		lines = append(lines, sb.String())
+	}
+	for db, m := range rt.GetAllRules() {
+		for t, r := range m {
+			one(db+"."+t, r)
+		}
+	}
+	sort.Strings(lines)
+	one("<default>", rt.GetDefaultRule())
+	return strings.Join(lines, "\n")
+}
+
+// Catch turns a panic of f into its result string.
+func Catch(f func() string) (res string) {
+	defer func() {
+		if r := recover(); r != nil {
+			res = fmt.Sprintf("panic: %v", r)
+		}
+	}()
+	return f()
+}
+
+func firstDiff(a, b string) string {
+	la, lb := strings.Split(a, "\n"), strings.Split(b, "\n")
+	for i := 0; i < len(la) || i < len(lb); i++ {
+		var x, y string
+		if i < len(la) {
+			x = la[i]
+		}
+		if i < len(lb) {
+			y = lb[i]
+		}
+		if x != y {
+			return fmt.Sprintf("before: %s\nafter:  %s", x, y)
+		}
+	}
+	return ""
+}
+
 // ---- a workload ----
 
 type workload struct {
@@ -209,13 +317,20 @@ type workload struct {
 }
 
 type runResult struct {
-	Mismatches []string `json:"mismatches"`
+	Mismatches []string `json:"mismatches"` // concurrent plan differs from the plan computed alone
+	After      []string `json:"after"`      // plan computed alone after the workload differs from the plan computed alone on an untouched router
+	TableDiff  string   `json:"table_diff"` // routing table before vs after the workload
 	Planned    int      `json:"planned"`
 	Err        string   `json:"err"`
 }
 
-// runWorkload plans every statement alone, then all sessions at once behind a
-// start barrier, and reports every statement whose concurrent plan differs.
+// runWorkload
+//  1. plans every statement alone, each on a router of its own that nothing else has used;
+//  2. snapshots the routing table of the shared router, then lets all sessions plan at
+//     once behind a start barrier and compares each plan with (1);
+//  3. plans every statement alone again on the shared router and compares with (1):
+//     shared state changed by some earlier statement shows up here without any race;
+//  4. snapshots the routing table again and compares with the first snapshot.
 func runWorkload(c workload) runResult {
 	var out runResult
 	e, err := newEnv()
@@ -224,12 +339,24 @@ func runWorkload(c workload) runResult {
 		return out
 	}
 	solo := make([][]string, len(c.Sessions))
+	cache := map[op]string{}
 	for g, ops := range c.Sessions {
 		solo[g] = make([]string, len(ops))
 		for j, o := range ops {
-			solo[g][j] = planOne(e, o)
+			if r, ok := cache[o]; ok {
+				solo[g][j] = r
+				continue
+			}
+			pe, err := newEnv()
+			if err != nil {
+				out.Err = err.Error()
+				return out
+			}
+			solo[g][j] = planOne(pe, o)
+			cache[o] = solo[g][j]
 		}
 	}
+	before := snapshot(e.router)
 	reps := c.Reps
 	if reps < 1 {
 		reps = 1
@@ -261,6 +388,18 @@ func runWorkload(c workload) runResult {
 	for g := range mism {
 		out.Mismatches = append(out.Mismatches, mism[g]...)
 		out.Planned += counts[g]
+	}
+	for g, ops := range c.Sessions {
+		for j, o := range ops {
+			got := planOne(e, o)
+			if got != solo[g][j] && len(out.After) < 5 {
+				out.After = append(out.After, fmt.Sprintf("session %d statement %d (db %q, %s %q): planned alone on an untouched router:\n%s\nplanned alone after the workload:\n%s",
+					g, j, o.DB, o.Kind, o.SQL+o.Table, solo[g][j], got))
+			}
+		}
+	}
+	if after := snapshot(e.router); after != before {
+		out.TableDiff = firstDiff(before, after)
 	}
 	return out
 }
